@@ -302,18 +302,18 @@ Proof.
     { unfold is_digit in Dx. apply andb_true_iff in Dx. destruct Dx as [D1 D2]. apply N.leb_le in D1. apply N.leb_le in D2. lia. }
     assert (Hy : 48 <= y <= 57).
     { unfold is_digit in Dy. apply andb_true_iff in Dy. destruct Dy as [D1 D2]. apply N.leb_le in D1. apply N.leb_le in D2. lia. }
-    set (T := 10 ^ N.of_nat (length a)) in *.
+    set (T := 10 ^ N.of_nat (length a)) in *. clearbody T.
     destruct (N.compare x y) eqn:C.
     + apply N.compare_eq in C. subst y. rewrite (IH b wa wb Ll Da Db Pwa Pwb).
       subst va vb. destruct (N.compare_spec wa wb) as [E|E|E]; symmetry.
       * apply N.compare_eq_iff. lia.
       * apply N.compare_lt_iff. lia.
       * apply N.compare_gt_iff. lia.
-    + apply N.compare_lt_iff in C. symmetry. apply N.compare_lt_iff. subst va vb.
+    + assert (C' : x < y) by (apply N.compare_lt_iff; exact C). symmetry. apply N.compare_lt_iff. subst va vb.
       change (0 * 10 + (x - 48)) with (x - 48). change (0 * 10 + (y - 48)) with (y - 48).
       assert (M : (x - 48 + 1) * T <= (y - 48) * T) by (apply N.mul_le_mono_r; lia).
       rewrite N.mul_add_distr_r in M. lia.
-    + apply N.compare_gt_iff in C. symmetry. apply N.compare_gt_iff. subst va vb.
+    + assert (C' : y < x) by (apply N.compare_gt_iff; exact C). symmetry. apply N.compare_gt_iff. subst va vb.
       change (0 * 10 + (x - 48)) with (x - 48). change (0 * 10 + (y - 48)) with (y - 48).
       assert (M : (y - 48 + 1) * T <= (x - 48) * T) by (apply N.mul_le_mono_r; lia).
       rewrite N.mul_add_distr_r in M. lia.
